@@ -1,11 +1,11 @@
 SPECIFICATION MSpec
 CONSTANTS
-  Accts = {"eoa", "fwd"}
+  Accts = {"eoa", "fwd", "dbl"}
   Paths = {"direct", "forward", "delegatecall", "lookalike", "fwdrevert"}
-  Ops = {"delegate", "undelegate", "withdraw", "vote"}
+  Ops = {"delegate", "undelegate", "withdraw", "vote", "redelegate", "votew"}
   Amts = {0, 1, 2, 9}
-  Vals = {"valid", "unknown"}
-  Options = {0, 1, 3, 7}
+  Vals = {"valid", "second", "unknown"}
+  Options = {0, 1, 3, 7, 12}
   Start = 5
   Deposit = 1
   Depth = 12
